@@ -348,15 +348,23 @@ def sym_value(eng, kind, arg, tag):
     if kind == 'bytes':
         return eng.bytes(tag, eng.choice(4, tag + '.len'))
     if kind == 'str':
-        return TEXTS[eng.choice(len(TEXTS), tag)]
+        menu = TEXTS if _WIDE[0] else TEXTS_SMALL
+        return menu[eng.choice(len(menu), tag)]
     if kind == 'name':
         n = eng.choice(3, tag + '.n')
         return [env.component(eng, '%s.c%d' % (tag, i), i % 2 + 1, 1 + 2 * (i % 2), forbid=()) for i in range(n)]
     raise AssertionError(kind)
 
 
+_WIDE = [True]
+TEXTS_SMALL = ['', 'é', 'é' * 127, 'a' * 253]
+
+
 def make_values(eng, schema, plan, prefix=''):
     """plan: dict leaf path -> 'sym' | 'fixed' | 'absent' (default 'absent')"""
+    if prefix == '':
+        # the full text menu when one leaf is symbolic, a boundary subset when several are (product of menus)
+        _WIDE[0] = sum(1 for v in plan.values() if v == 'sym') <= 1
     vals = {}
     for i, (name, t, kind, arg) in enumerate(schema):
         p = prefix + name
